@@ -7,12 +7,22 @@ Theorems about `CanopenModel/Sdo/BlockDown.lean` (model of `BlockDownloadStream`
 announced by the server, CRC requested/supported or not, every multiplexer, and (safety) every
 set of lost client frames.  `Plain E` (Lemmas/BlockDown.lean) is the C12 setting of the environment:
 block sizes 1..127, no C07 response disturbance, and the server's own time-out firing before the
-client's whenever requests can get lost.  Helper lemmas: `CanopenProofs/Lemmas/BlockDown.lean`.
+client's whenever requests can get lost.  Helper lemmas: `CanopenProofs/Lemmas/BlockDown.lean`
+(+ `BlockDownLoss`, `BlockDownFuel`, `BlockDownOffers`).
+
+The caller.  `blockDownloadOffers … offers` is the `with` block for ANY RawIOBase caller (raw
+`write()` calls with the given offers; the C12 driver replays the offers io.BufferedWriter made):
+`undisturbed_offers`, `unsized_completed_by_close`.  `blockDownload` is the form with the 7-byte
+chunks of the payload as pending `write` calls — exactly what the hand loop
+`pos += fp.write(data[pos:])` produces, in every environment (`hand_loop_is_chunks`); the safety,
+repair and fuel theorems are stated for it, and `undisturbed` is the `offers = []` instance of
+`undisturbed_offers` in that form.
 -/
 import CanopenModel.Sdo.BlockDown
 import CanopenProofs.Lemmas.BlockDown
 import CanopenProofs.Lemmas.BlockDownLoss
 import CanopenProofs.Lemmas.BlockDownFuel
+import CanopenProofs.Lemmas.BlockDownOffers
 
 namespace Canopen.C12
 open Canopen Canopen.Crc Canopen.Gen.SdoBlock Canopen.Sdo.BlockDown
@@ -69,6 +79,118 @@ theorem undisturbed (E : Env) (hE : Plain E) (hnl : ∀ n, E.lost n = false)
   simp [reqFrames, hlog]
 
 
+/-- **Undisturbed block download, ANY caller** (the analogue of C01 `download_delivers`).
+    `offers` is any list of sizes of raw `write()` offers: the caller offers prefixes of the unsent
+    remainder of these lengths (a 0 counts as 1), then the whole remainder until nothing is left,
+    and advances by the count `write` returns — a hand loop, io.BufferedWriter with any buffer size
+    fed in pieces of any size, one byte at a time.  Size declared, no loss: the transfer returns
+    normally, the server has committed exactly the payload, the strict server saw nothing
+    illegal, and the frames on the bus are the same CiA 301 conversation as for 7-byte chunking —
+    they do not depend on how the caller split the data.  (`write` keeps what does not fill a
+    segment in `_pending` and always answers the number of bytes taken.) -/
+theorem undisturbed_offers (E : Env) (hE : Plain E) (hnl : ∀ n, E.lost n = false) (offers : List Nat)
+    (fuel : Nat) (cap crcReq : Bool) (idx sub : Nat) (payload : Bytes) (h1 : 1 ≤ payload.length)
+    (h2 : payload.length < 2 ^ 32) (hf : payload.length + 2 ≤ fuel) :
+    (blockDownloadOffers E fuel cap idx sub payload (some payload.length) crcReq offers).2 = .ok ∧
+    (blockDownloadOffers E fuel cap idx sub payload (some payload.length) crcReq offers).1.srv.committed = some payload ∧
+    (blockDownloadOffers E fuel cap idx sub payload (some payload.length) crcReq offers).1.srv.illegal = none ∧
+    ∀ c, (chunks payload).getLast? = some c →
+      (reqFrames (blockDownloadOffers E fuel cap idx sub payload (some payload.length) crcReq offers).1).reverse =
+        idealInit crcReq idx sub payload.length :: idealSegs E.blkOf (chunks payload) 1 0 (E.blkOf 0)
+          ++ [idealEnd c.length (if cap then crcHqx payload 0 else 0)] := by
+  obtain ⟨log, hi, hlog⟩ := init_deliv' E hE cap crcReq idx sub payload.length h2 (hnl 0)
+  have hinv := init_inv E hE payload h1 h2 cap crcReq idx sub _ hi
+  have hne : payload ≠ [] := by intro h; rw [h] at h1; simp at h1
+  have hfi : FeedInv E payload
+      { cl := { size := some payload.length, blksize := E.blkOf 0, crcSupported := cap },
+        srv := { crcCapable := cap, k := 1, phase := .recv, illegal := none, idx := idx, sub := sub,
+                 size := some payload.length, crc := crcReq && cap, blk := E.blkOf 0, sseq := 0, buf := [] },
+        queue := [], nreq := 1, log := log } payload :=
+    ⟨by rw [hat_of_sized _ _ rfl rfl]; exact hinv, rfl, fun n _ => hnl n, rfl, by intro _; rfl, by simp⟩
+  obtain ⟨s1, hr, hd, hc, hsup, hsc, hill, hreq, hlast⟩ :=
+    feed_sized E hE payload payload.length _ payload offers fuel (Nat.le_refl _) hne hfi rfl hf
+  have hcl := close_ok E hE payload s1 hd (hnl _)
+    (by rw [hsc, hsup]; intro h; simp only [Bool.and_eq_true] at h; exact h.2) hc
+  unfold blockDownloadOffers blockDownloadOffersFrom
+  rw [hi]; simp only
+  rw [hr]; simp only
+  refine ⟨hcl.1, hcl.2.1, by rw [hcl.2.2.1, hill], ?_⟩
+  intro c hcl'
+  rw [hcl.2.2.2, hreq, hlast c hcl', hsup]
+  simp [reqFrames, hlog]
+
+/-- **Size not declared** (`size=None`), undisturbed, any caller: when the length of the payload
+    is not a multiple of 7, `write` sends the full segments and keeps the rest, and `close()`
+    completes the transfer — the kept bytes go out as the last segment (`c = 1`), then the end
+    request; the server commits exactly the payload and saw nothing illegal.  (For a multiple of 7
+    no segment ever carries `c = 1`: `close()` sends the end request into the open sub-block and the
+    transfer fails — see the oracle in harness/props/c12.py.) -/
+theorem unsized_completed_by_close (E : Env) (hE : Plain E) (hnl : ∀ n, E.lost n = false) (offers : List Nat)
+    (fuel : Nat) (cap crcReq : Bool) (idx sub : Nat) (payload : Bytes) (h7 : payload.length % 7 ≠ 0)
+    (hf : payload.length + 2 ≤ fuel) :
+    (blockDownloadOffers E fuel cap idx sub payload none crcReq offers).2 = .ok ∧
+    (blockDownloadOffers E fuel cap idx sub payload none crcReq offers).1.srv.committed = some payload ∧
+    (blockDownloadOffers E fuel cap idx sub payload none crcReq offers).1.srv.illegal = none := by
+  obtain ⟨log, hi⟩ := init_deliv_none E hE cap crcReq idx sub (hnl 0)
+  have hne : payload ≠ [] := by intro h; rw [h] at h7; simp at h7
+  have h1 : 1 ≤ payload.length := by cases payload <;> simp_all
+  have hck := chunks7_props payload.length payload (Nat.le_refl _)
+  have hb := hE.blk 0
+  have hfi : FeedInv E payload
+      { cl := { size := none, blksize := E.blkOf 0, crcSupported := cap },
+        srv := { crcCapable := cap, k := 1, phase := .recv, illegal := none, idx := idx, sub := sub,
+                 size := none, crc := crcReq && cap, blk := E.blkOf 0, sseq := 0, buf := [] },
+        queue := [], nreq := 1, log := log } payload := by
+    refine ⟨⟨rfl, rfl, rfl, rfl, by simp [hat]; omega, by simp [hat]; omega, by simp [hat], ?_, ?_, rfl, Or.inr rfl,
+      by simp [hat], ?_, rfl, ?_, rfl⟩, rfl, fun n _ => hnl n, rfl, by intro _; rfl, by simp⟩
+    · simp [hat, chunkItems, chunks, hck.1]
+    · simp [hat, chunkItems, chunks, hck.1]
+    · simpa [chunkItems, chunks] using hck.2
+    · simp only [List.nil_append, chunkItems, chunks, hck.1]; exact hne
+  obtain ⟨s1, hr, hfi1, hz1, hp1, hsup, hsc, hill⟩ :=
+    feed_unsized E hE payload payload.length _ payload offers fuel (Nat.le_refl _) hfi rfl (by simpa using h7) hf
+  have hcl := close_unsized E hE payload s1 hfi1 hp1
+    (by rw [hsc, hsup]; intro h; simp only [Bool.and_eq_true] at h; exact h.2)
+  unfold blockDownloadOffers blockDownloadOffersFrom
+  rw [hi]; simp only
+  rw [hr]; simp only
+  exact ⟨hcl.1, hcl.2.1, by rw [hcl.2.2, hill]⟩
+
+/-- **The hand loop is the chunk form** — in every environment (any loss, any response
+    disturbance), for every declared size (right, wrong or none): a caller that always offers the
+    whole unsent remainder (`offers = []`: `pos += fp.write(data[pos:])`, also what
+    io.BufferedWriter does with one big `write`) makes the stream do, step for step, what the
+    pending `write` calls with the 7-byte chunks of the payload do (`blockDownloadFrom`, the form
+    the theorems below and C07 are stated for); the caller's last look costs one step of fuel. -/
+theorem hand_loop_is_chunks (E : Env) (fuel : Nat) (s0 : Sys) (idx sub : Nat) (payload : Bytes)
+    (size : Option Nat) (crcReq : Bool)
+    (hnf : (blockDownloadFrom E fuel s0 idx sub payload size crcReq).2 ≠ .fuel) :
+    blockDownloadOffersFrom E (fuel + 1) s0 idx sub payload size crcReq [] =
+      blockDownloadFrom E fuel s0 idx sub payload size crcReq := by
+  unfold blockDownloadFrom at hnf
+  unfold blockDownloadOffersFrom blockDownloadFrom
+  generalize hi : init E s0 idx sub size crcReq = x at hnf ⊢
+  obtain ⟨s, b⟩ := x
+  cases b with
+  | false => rfl
+  | true =>
+    simp only at hnf ⊢
+    have hj := init_clean E s0 s idx sub size crcReq hi
+    have h1 := run_hand E (fuel + 1) s [] payload [] hj
+    simp only [List.nil_append] at h1
+    have hrun : (run E fuel s (chunkItems payload)).2 ≠ .fuel := by
+      intro h
+      apply hnf
+      have e : (chunks payload).map (fun b => Item.write b false) = chunkItems payload := rfl
+      rw [e]
+      generalize run E fuel s (chunkItems payload) = y at h ⊢
+      obtain ⟨s1, r⟩ := y
+      simp only at h
+      subst h
+      rfl
+    rw [h1, run_snoc_feed E fuel s (chunkItems payload) hrun]
+    rfl
+
 /-- **One lost segment in a sub-block other than the final one is repaired.**  `g ≥ 1` is the
     global number of the lost client frame (frame 0 is the initiate request, frame `g` the `g`-th
     segment); `notFinal … (g-1) 1 (blkOf 0) nseg` says that this segment belongs to a sub-block
@@ -116,8 +238,8 @@ theorem driver_fuel_suffices (payload : Bytes) (n : Nat) :
   simp only [chunks, fuelFor, this]
   omega
 
-theorem close_not_fuel (E : Env) (s : Sys) : (close E s).2 ≠ .fuel := by
-  unfold close
+theorem closeEnd_not_fuel (E : Env) (s : Sys) : (closeEnd E s).2 ≠ .fuel := by
+  unfold closeEnd
   simp only
   generalize requestResponse E s _ = x
   obtain ⟨s1, r⟩ := x
@@ -125,6 +247,25 @@ theorem close_not_fuel (E : Env) (s : Sys) : (close E s).2 ≠ .fuel := by
   | resp f => simp only; split <;> simp
   | timeout => simp
   | aborted => simp
+
+theorem close_not_fuel (E : Env) (s : Sys) : (close E s).2 ≠ .fuel := by
+  unfold close
+  split
+  · generalize hx : send E _ s.cl.pend true = x
+    obtain ⟨s1, w⟩ := x
+    cases w with
+    | err => simp
+    | cont items =>
+      simp only
+      have hd := send_last_done E _ _ s1 items hx
+      have hnf := run_done_nofuel E items s1 hd
+      generalize run E (items.length + 1) s1 items = y at hnf ⊢
+      obtain ⟨s2, r⟩ := y
+      cases r with
+      | ok => exact closeEnd_not_fuel E s2
+      | err => simp
+      | fuel => exact absurd rfl hnf
+  · exact closeEnd_not_fuel E s
 
 /-- **The explicit fuel is never the reason for an outcome**: if at most `N` client frames are
     lost (`AtMost E 0 N`), `Res.fuel` cannot occur once the fuel covers the segments plus 130 steps
